@@ -237,6 +237,31 @@ func main() {
 	spec := M{"openapi": "3.0.3", "info": M{"title": "t", "version": "1"}, "paths": paths,
 		"security":   []any{M{"S03": []any{}}, M{"S04": []any{}, "S05": []any{}}},
 		"components": M{"securitySchemes": defs}}
+	// two generations of the same operations: as they are, and with one shared default response, which
+	// switches the generator to "convenient errors" (refusals are then written through NewError: another
+	// branch of the security block of every handler)
+	for _, variant := range []string{"plain", "convenient-errors"} {
+		driveVariant(r, variant, spec, paths, ops, schemes)
+	}
+	r.Set("operations", len(ops))
+	r.Set("schemes", len(schemes))
+	r.Assume("model: handler invoked <=> some alternative has all its schemes accepted AND no scheme the operation evaluates was hard-rejected (a non-skip error from the SecurityHandler aborts the request with 401: documented contract of ErrSkipServerSecurity); vectors with a hard reject and a satisfied alternative are counted in hard_reject_vectors_with_satisfied_alternative",
+		"the iff half drives Server.ServeHTTP directly with hand-built credentials (the generated client refuses to send when its SecuritySource cannot satisfy any alternative); the credential-equality half goes through the generated client",
+		"operations with two Authorization-based schemes are only driven with at most one of them presented (HTTP carries one Authorization header)")
+	r.Finish("requirement structures: all 255 non-empty sets of alternatives over 3 apiKey schemes (header, query, cookie), 5 operations over 20 schemes with alternatives straddling bitmask indices 7/8 and 15/16, `security: []`, inheritance of a global requirement, and 12 operations over basic / bearer / oauth2 (three scope sets) / mixed kinds; alternatives with unimplemented schemes under ignore_not_implemented. Both with plain and with convenient errors. per operation: all 4^n vectors over {absent, accepted, skipped, hard-rejected} for n <= 3 schemes, for wide operations every one-hot / all-but-one vector on three backgrounds and all boundary pairs. client half: credential values (core alphabet and reserved characters) through Client -> Server for every scheme kind, oauth2 scopes = the operation's scopes. non-trivial = distinct (variant, operation, vector) with at least one scheme presented.")
+}
+
+func driveVariant(r *vf.Run, variant string, spec, paths M, ops []opDesc, schemes []scheme) {
+	if variant == "convenient-errors" {
+		for _, item := range paths {
+			for _, o := range item.(M) {
+				o.(M)["responses"].(M)["default"] = M{"$ref": "#/components/responses/Err"}
+			}
+		}
+		comps := spec["components"].(M)
+		comps["responses"] = M{"Err": M{"description": "error", "content": M{"application/json": M{"schema": M{"$ref": "#/components/schemas/ErrBody"}}}}}
+		comps["schemas"] = M{"ErrBody": M{"type": "object", "required": []any{"message"}, "properties": M{"message": M{"type": "string"}}}}
+	}
 	data, _ := json.Marshal(spec)
 
 	sc := regen.NewScratch(r)
@@ -300,7 +325,24 @@ func verifOutcome(v string) error {
 		fmt.Fprintf(&sb, "func (s *VerifSec) Handle%s(ctx context.Context, op OperationName, t %s) (context.Context, error) {\n\ts.Calls++\n\ts.Seen[%q] = %s\n\ts.SeenOp[%q] = string(op)\n%s\treturn ctx, verifOutcome(%s)\n}\n\n", n, n, s.Name, repr, s.Name, scopes, repr)
 		fmt.Fprintf(&sb, "func (s *VerifSec) %s(ctx context.Context, op OperationName) (%s, error) {\n\tv, ok := s.Give[%q]\n\tif !ok {\n\t\treturn %s{}, ogenerrors.ErrSkipClientSecurity\n\t}\n\t%s\n}\n\n", n, n, s.Name, n, build)
 	}
-	ob, _ := json.Marshal(M{"ops": ops, "schemes": schemes})
+	if variant == "convenient-errors" {
+		sb.WriteString(`// VerifHandler answers like UnimplementedHandler, through the shared error response.
+type VerifHandler struct{ UnimplementedHandler }
+
+func (VerifHandler) NewError(ctx context.Context, err error) *ErrStatusCode {
+	code := 501
+	var se *ogenerrors.SecurityError
+	if errors.As(err, &se) {
+		code = 401
+	}
+	return &ErrStatusCode{StatusCode: code, Response: ErrBody{Message: err.Error()}}
+}
+
+`)
+	} else {
+		sb.WriteString("type VerifHandler = UnimplementedHandler\n\n")
+	}
+	ob, _ := json.Marshal(M{"ops": ops, "schemes": schemes, "variant": variant})
 	fmt.Fprintf(&sb, "const VerifSpecJSON = %q\n", string(ob))
 	sc.Write("api/verif_glue.go", []byte(sb.String()))
 	sc.CopyDriver("c09", "driver")
@@ -315,13 +357,7 @@ func verifOutcome(v string) error {
 		args = []string{"--only-op", c.Op}
 	}
 	sum := sc.RunDriver(r, "driver.bin", nil, args...)
-	r.Set("operations", len(ops))
-	r.Set("schemes", len(schemes))
 	for k, v := range sum.Stats {
-		r.Set(k, v)
+		r.Set(variant+"/"+k, v)
 	}
-	r.Assume("model: handler invoked <=> some alternative has all its schemes accepted AND no scheme the operation evaluates was hard-rejected (a non-skip error from the SecurityHandler aborts the request with 401: documented contract of ErrSkipServerSecurity); vectors with a hard reject and a satisfied alternative are counted in hard_reject_vectors_with_satisfied_alternative",
-		"the iff half drives Server.ServeHTTP directly with hand-built credentials (the generated client refuses to send when its SecuritySource cannot satisfy any alternative); the credential-equality half goes through the generated client",
-		"operations with two Authorization-based schemes are only driven with at most one of them presented (HTTP carries one Authorization header)")
-	r.Finish("requirement structures: all 255 non-empty sets of alternatives over 3 apiKey schemes (header, query, cookie), 5 operations over 20 schemes with alternatives straddling bitmask indices 7/8 and 15/16, `security: []`, inheritance of a global requirement, and 12 operations over basic / bearer / oauth2 (three scope sets) / mixed kinds. per operation: all 4^n vectors over {absent, accepted, skipped, hard-rejected} for n <= 3 schemes, for wide operations every one-hot / all-but-one vector on three backgrounds and all boundary pairs. client half: credential values (core alphabet and reserved characters) through Client -> Server for every scheme kind, oauth2 scopes = the operation's scopes. non-trivial = distinct (operation, vector) with at least one scheme presented.")
 }
